@@ -72,7 +72,7 @@ def enc_json(R, e):
         return _common({"kind": "composite", "name": e["name"],
                         "elements": [enc_json(R, m) for m in R.children(e["id"])]}, e)
     if k == "ref":
-        return _common({"kind": "ref", "name": e["name"], "type": R.ents[e["target"]]["name"]}, e)
+        return _common({"kind": "ref", "name": e["name"], "type": e.get("tname") or R.ents[e["target"]]["name"]}, e)
     raise ValueError(k)
 
 
@@ -83,7 +83,8 @@ def level_json(R, e):
     _common(d, e)
     for m in R.children(e["id"]):
         if m["kind"] == "field":
-            f = {"name": m["name"], "id": m["id"], "type": R.ents[m["target"]]["name"] if m["target"] else m["prim"]}
+            f = {"name": m["name"], "id": m["id"],
+                 "type": m.get("tname") or (R.ents[m["target"]]["name"] if m["target"] else m["prim"])}
             if m["pres"] in ("optional", "constant"):
                 f["presence"] = m["pres"]
             _opt(f, "valueRef", m["vref"])
@@ -112,7 +113,11 @@ def build_schema(rec, pkg=PKG):
         support.append(cat.dim())
     if "data" in kinds and "varDataEncoding" not in have:
         support.append(cat.vardata())
-    return {"package": pkg, "id": 7, "version": 1, "byteOrder": "littleEndian", "types": support + types, "messages": msgs}
+    S = {"package": pkg, "id": 7, "version": 1, "byteOrder": "littleEndian", "types": support + types, "messages": msgs}
+    hdr = [e["hdr"] for e in rec["ents"] if e.get("hdr")]
+    if hdr:
+        S["headerType"] = hdr[0]       # the reference text, as spelled by the vector
+    return S
 
 
 def header_owner(rec):
